@@ -4,6 +4,7 @@ From Coq Require Import List NArith.
 From SudachiVerif Require Generated.TrieBits.
 From SudachiVerif Require Import Model.Trie Model.WordIdTable Model.LexSet.
 From SudachiVerif Require Import Proofs.TrieProofs Proofs.WordIdTableProofs Proofs.LexSetProofs.
+From SudachiVerif Require Import Model.IndexBuild Proofs.IndexBuildProofs.
 From SudachiVerif Require Model.Buffer Proofs.PipelineProofs Proofs.BuildLatticeProofs Proofs.BuildOptimal Proofs.LookupLattice.
 Import ListNotations.
 Open Scope N_scope.
@@ -136,6 +137,33 @@ Theorem C04_lookup_once_of_certificate : forall L rows fuel,
   forall dic text off l, dic < 16 -> bytes text -> lex_lookup L dic text off = Some l -> NoDup l.
 Proof. exact (fun L rows fuel => lex_lookup_nodup_of_cert L rows fuel C04_fact_layout). Qed.
 Print Assumptions C04_lookup_once_of_certificate.
+
+(* ---- the index the builder hands to the table writer and the trie builder (IndexBuilder, write_index) ---- *)
+(* shapes re-read from dic/build/index.rs, build/mod.rs write_index, build/lexicon.rs read_bytes: add = entry().or_default().push,
+   ids = positions among ALL rows, offset taken before a group is written, (key, offset) pairs to yada, every csv record is a
+   row (no header line, no comment character, no trimming) *)
+Fact C04_fact_index_shapes : index_shapes_ok = true.
+Proof. vm_compute. reflexivity. Qed.
+
+(* for EVERY lexicon (any order, scattered homographs, non-indexed rows in between): the (surface, ids) table is exactly
+   "all rows with left_id >= 0 grouped by surface, ids = their row numbers in row order", one group per distinct indexed surface,
+   groups in order of first occurrence *)
+Theorem C04_index_groups_spec : forall rows,
+  NoDup (map fst (index_groups rows)) /\
+  (forall k ids, In (k, ids) (index_groups rows) <-> (ids = rows_with k rows /\ ids <> [])) /\
+  map fst (index_groups rows) = first_occurrences (indexed_surfaces rows).
+Proof. exact (index_groups_spec C04_fact_index_shapes C04_fact_should_index). Qed.
+Print Assumptions C04_index_groups_spec.
+
+(* ... and the word-id table written from it: every (key, offset) pair handed to the trie builder points at a group that reads
+   back as exactly the row numbers of the indexed rows with that surface; every indexed surface is a key; keys are distinct *)
+Theorem C04_index_table_spec : forall rows tbl kos,
+  N.of_nat (length rows) <= 4294967296 -> index_table rows = Some (tbl, kos) ->
+  NoDup (map fst kos) /\
+  (forall k o, In (k, o) kos -> rows_with k rows <> [] /\ entries tbl o = Some (rows_with k rows)) /\
+  (forall r, In r rows -> indexed r = true -> exists o, In (fst r, o) kos).
+Proof. exact (fun rows tbl kos => index_table_spec C04_fact_index_shapes C04_fact_should_index rows tbl kos C04_fact_group_limit). Qed.
+Print Assumptions C04_index_table_spec.
 
 (* ---- lookup results as lattice nodes (ties C04 to C02's build_optimal) ---- *)
 Close Scope N_scope.
